@@ -19,7 +19,7 @@ PROPERTY = "C12"
 RULE = "unit = one system; paths = scaling calls per (capture kind, neutral point, target set); non-trivial = target sets with at least one out-of-gamut chromaticity (dist) / any non-zero set (L1); distinct by (system, variant, set)"
 ASSUMPTIONS = ["non-negative systems only (the API asserts it)", "tightness of the common saturation factor is reported, not asserted (the statement does not claim it)",
                "'smallest single-source maximum' = min over receptors of max over sources of (K.A)_ik ub_k"]
-BOUNDS = {"quick": "shapes 2x2 2x3 3x3 3x4 4x4 4x5 x 2-3 matrices x (bounds, K, baseline) <= 2 deviations", "thorough": "plus 3x5 4x6, full cross"}
+BOUNDS = {"quick": "shapes 2x2 2x3 3x3 3x4 4x4 4x5 x 2-3 matrices x (bounds, K, baseline) <= 2 deviations; the plain systems again in capture units x1e-4, x1e4", "thorough": "plus 3x5 4x6, full cross"}
 TECHNIQUE = "all systems of the menu x target-set lattice x variants; closed-form ratio / collinearity / containment oracles"
 LEVEL_TEXT = "every enumerated (system, relative/absolute, neutral point, target set) is pushed through gamut_l1_scaling and gamut_dist_scaling; common ratio, the new maximum, preserved totals, hue collinearity with one common factor in (0,1], containment of every scaled chromaticity in the chromatic gamut (brute-force hull), identity on in-gamut sets and zero rows are decided exactly"
 LEVEL_NOTE = "small scope (2-4 receptors, <= 6 sources)"
@@ -34,11 +34,18 @@ def _v(rec, clause, sig, *a, **k):
 def units(tier, seed):
     shapes = [(2, 2), (2, 3), (3, 3), (3, 4), (4, 4), (4, 5)] + ([] if tier == "quick" else [(3, 5), (4, 6)])
     out = []
+    plain = {}
     gen = AL.systems(shapes, seed=seed, order=2, bounds=["ub-finite", "lb-mixed", "scalar"], Ks=["default", "scalar", "vector", "matrix-pos"], cross=(tier != "quick"), zeros=True)
     for names, A, (lb, ub), K, bl in gen:
         if tier == "quick" and names["A"] in ("perm", "seeded") and sum(names[k] not in ("default", "ub-finite") for k in ("bounds", "K", "baseline")) > 1:
             continue  # second-order deviations only for the 'asc' and 'zeros' matrices in the quick tier
         out.append(dict(names=names, spec=B.spec_of(A, lb, ub, K, bl), tier=tier))
+        if names["K"] == "default" and names["baseline"] == "default" and names["bounds"] in ("ub-finite", "lb-mixed") and names["A"] in ("asc", "zeros"):
+            plain.setdefault((names["shape"], names["bounds"], names["A"]), (names, A, lb, ub))
+    # the same plain systems in other units of capture (both scalings are statements about ratios)
+    for key, (names, A, lb, ub) in sorted(plain.items()):
+        for label, sc in (("x1e-4", 1e-4), ("x1e4", 1e4)):
+            out.append(dict(names=dict(names, capture_unit=label), spec=B.spec_of(A * sc, lb, ub, None, None), tier=tier))
     return out
 
 
